@@ -264,4 +264,14 @@ def vorDivToUvNodal (sqrt : K → K) (ly : Layout) (r : K) (T : Transforms K)
     (cosl : List K) (vor dv : List (List K)) (c : Bool) : Vec K :=
   vorDivToUvNodalW ly r (weightA sqrt ly) (weightB sqrt ly) T cosl vor dv c
 
+/-! ### the domain of the wind round trip (`Dino.C02.Dom`), as a Boolean test -/
+
+/-- `x` has shape `rows × cols`, vanishes at `l = 0`, in the top `k` wavenumbers and on the padding
+ columns (`l ≥ L − k`), and wherever `mask` is false (triangle `l < |m|`, row 1 and padding rows of the
+ fast layout).  `isz` is the zero test of the scalar type.  `Dino.C02.domB_iff` ties it to `Dom`. -/
+def domB (isz : K → Bool) (ly : Layout) (k : Nat) (x : List (List K)) : Bool :=
+  decide (x.length = ly.rows) && x.all (fun row => decide (row.length = ly.cols)) &&
+    (List.range ly.rows).all fun i => (List.range ly.cols).all fun j =>
+      !(decide (j = 0) || decide (ly.L ≤ j + k) || !ly.maskAt i j) || isz ((x.getD i []).getD j 0)
+
 end Dino.Grid
